@@ -209,11 +209,51 @@ def match_known(prop, violation, known):
 # ---------------------------------------------------------------------------
 # parallel search
 # ---------------------------------------------------------------------------
+class _StderrFilter:
+    """The C unpickler prints 'SystemError: deallocated bytearray object has exported buffers' (with a
+    chained traceback) straight to sys.stderr for some damaged pickles.  That is noise from the code
+    under test doing its job; it is counted and dropped, everything else is passed on."""
+
+    def __init__(self, real):
+        self.real = real
+        self.buf = []
+        self.dropped = 0
+
+    def write(self, s):
+        self.buf.append(s)
+        return len(s)
+
+    def flush(self):
+        pass
+
+    def end_of_run(self):
+        if self.buf:
+            text = ''.join(self.buf)
+            self.buf = []
+            if 'deallocated bytearray object has exported buffers' in text:
+                self.dropped += 1
+            else:
+                self.real.write(text)
+                self.real.flush()
+
+    def __getattr__(self, name):
+        return getattr(self.real, name)
+
+
 def _worker(args):
     profile, tier, seeds, deadline, want_samples = args
     from . import pool
     pool.limit_memory()
     faulthandler.dump_traceback_later(550, exit=True)
+    filt = sys.stderr = _StderrFilter(sys.stderr)
+    try:
+        return _worker_body(profile, tier, seeds, deadline, want_samples, filt)
+    finally:
+        filt.end_of_run()
+        sys.stderr = filt.real
+
+
+def _worker_body(profile, tier, seeds, deadline, want_samples, filt):
     out = {'runs': 0, 'counters': {}, 'digests': {}, 'violations': [], 'harness': [], 'steps': 0,
            'sim_span': 0.0, 'samples': [], 'seeds': []}
     for seed in seeds:
@@ -225,6 +265,8 @@ def _worker(args):
             import traceback
             out['harness'].append('seed %d: %r\n%s' % (seed, e, traceback.format_exc()[-1500:]))
             continue
+        filt.end_of_run()
+        out['counters']['probe.c_unpickler_systemerror_prints_dropped'] = filt.dropped
         out['runs'] += 1
         out['seeds'].append(seed)
         out['steps'] += res['steps']
